@@ -7,6 +7,7 @@ import NgoVerif.Proofs.C05sem
 import NgoVerif.Proofs.C10multi
 import NgoVerif.Proofs.C20dom
 import NgoVerif.Proofs.C08impl
+import NgoVerif.Proofs.C08trans
 import NgoVerif.Proofs.C08anon
 import NgoVerif.Proofs.C08anonStm
 import NgoVerif.Proofs.C08anonObj
@@ -160,8 +161,12 @@ def handleSem : Sexp → Option Sexp
         -- `bb` and `q :: ab` have the same literals (hypothesis `hmem` of the theorem)
         let same := Proofs.C08impl.sameLits bb (R.qLit :: ab)
         -- the three conjuncts of `impliedCheck` are also reported one by one (coverage statistics of the harness)
-        .list [.atom "ok", ofBool (Proofs.C08impl.impliedCheck R), ofBool same, ofBool (R.src.all Proofs.C08impl.okStm),
-               ofBool (blitMem R.pLit R.body), ofBool (R.src.all (Proofs.C08impl.ruleImplies R.pn R.pargs R.qn R.qargs))]
+        -- the direct check, or the implication followed through chains of predicates to depth 4 (`C08_remove_implied_typed_chain`)
+        let direct := Proofs.C08impl.impliedCheck R
+        let chain := Proofs.C08trans.impliedCheckT 3 R
+        .list [.atom "ok", ofBool (direct || chain), ofBool same, ofBool (R.src.all Proofs.C08impl.okStm),
+               ofBool (blitMem R.pLit R.body), ofBool (R.src.all (Proofs.C08impl.ruleImplies R.pn R.pargs R.qn R.qargs) || chain),
+               ofBool (!direct && chain)]
       | _, _, _, _, _, _ => .list [.atom "unsupported", .str "rules / literals"]
   | .list [.atom "sem_anon_cond", o, u, pr, qr, .list fs] =>
     some <| match Stm.ofSexp o, Stm.ofSexp u, Stm.ofSexp pr, Stm.ofSexp qr,
